@@ -30,6 +30,9 @@ def run(facts, rep):
     d4_scan(facts, rep)
     d5_sort(facts, rep)
     d6_overloads(facts, rep)
+    # the range pool of auto / affinity partitioner decides which sub-ranges reach the reduction bodies (shared with C05-D7)
+    from rules.C05 import d7_range_pool_ring
+    d7_range_pool_ring(facts, rep, clause='D7')
 
 
 def d6_overloads(facts, rep):
